@@ -48,7 +48,7 @@ claim("C16","fault_enumeration","offline trace checking of scripted fake-plugin 
  "plugins that never terminate are outside the quantifier; reaping is observed through strace on a sample (all single-plugin cases in thorough)", "DESIGN.md §5 C16")
 
 claim("C17","fault_enumeration","file-system snapshot diff (whole sandbox tree: path, mode, size, sha256) around runs of the real binary with scripted fake plugins; strace of write-mode opens; exit status",
- "The real thriftrw binary runs in a sandbox parent/{thrift,out,other} with canaries and a pre-populated out directory. Enumerated: plugin path shapes (absolute, '..' forms, aliases of core and other plugins' paths, directories, NUL, deep), every named failure cause, the k-th of n modules failing (also after > 5 MiB of generated code), thrift-root layouts, the conflicting path at every position among a response's files, and the library entry point gen.Generate (child vgenlib) with a thrift root that does not contain an included file; plus random combinations. Where the statement is silent (a '..' path that stays inside, an include outside the explicit root) the run may refuse or handle it; confinement and all-or-nothing are checked either way. After each run the snapshots decide confinement, conflict reporting, all-or-nothing and the expected generated paths; strace -f on a sample confirms no write-mode open outside out.",
+ "The real thriftrw binary runs in a sandbox parent/{thrift,out,other} with canaries and a pre-populated out directory. Enumerated: plugin path shapes (absolute, '..' forms, aliases of core and other plugins' paths, directories, NUL, deep), every named failure cause, the k-th of n modules failing (also after > 5 MiB of generated code), thrift-root layouts, the conflicting path at every position among a response's files, and the library entry point gen.Generate (child vgenlib) with a thrift root that does not contain an included file and with an in-process api.ServiceGenerator returning hostile paths; plus random combinations. Where the statement is silent (a '..' path that stays inside, an include outside the explicit root) the run may refuse or handle it; confinement and all-or-nothing are checked either way. After each run the snapshots decide confinement, conflict reporting, all-or-nothing and the expected generated paths; strace -f on a sample confirms no write-mode open outside out.",
  "failures that can only arise while writing are only checked for confinement; symlinks inside out are not explored", "DESIGN.md §5 C17")
 
 claim("C20","exploration","runtime monitor: edit-script oracle over scratch git histories, real thriftbreak binary, readable and JSON output, repeated runs",
